@@ -195,7 +195,7 @@ def sim_emit_plan(exe, seed, profile, idx, path, history_from=None):
     first = int(idx) if history_from is None else int(history_from)
     with open(path, "w") as f:
         for i in range(first, int(idx) + 1):
-            f.write(subprocess.run([exe, "--data", DATA, "--emit-plan", "--seed", str(seed), "--profile", profile, "--index", str(i)], stdout=subprocess.PIPE, text=True).stdout)
+            f.write(subprocess.run([exe, "--data", DATA, "--emit-plan", "--seed", str(seed), "--profile", profile, "--index", str(i)], stdout=subprocess.PIPE, text=True, errors="replace").stdout)
 
 
 def wrap(variant, cmd):
@@ -211,7 +211,7 @@ def minimise_with_fallback(exe, cands, planf, minf, extra):
                 continue
             sim_emit_plan(exe, v["batchseed"], v["profile"], v["idx"], planf, hist)
             vg = "valgrind" in v["variant"]
-            r = subprocess.run(wrap(v["variant"], [exe, "--data", DATA, "--minimise", planf] + extra + (["--budget", "40"] if vg else []) + ["--variant", v["variant"], "-o", minf]), stdout=subprocess.PIPE, stderr=subprocess.PIPE, text=True)
+            r = subprocess.run(wrap(v["variant"], [exe, "--data", DATA, "--minimise", planf] + extra + (["--budget", "40"] if vg else []) + ["--variant", v["variant"], "-o", minf]), stdout=subprocess.PIPE, stderr=subprocess.PIPE, text=True, errors="replace")
             if vg and os.path.exists(minf) and "MINIMISED" in r.stdout:
                 r.returncode = 0  # the minimiser itself exits 78 under memcheck when its forked probes reported errors
             last = r
@@ -382,79 +382,98 @@ def main():
         return None
 
     MAXREP = 8
-    for (oracle, sig), vs in classes.items():
-        k = is_known(oracle, sig)
-        if k:
-            known_hits.append((k, len(vs)))
-            continue
-        v = vs[0]
-        exe = exes[v["variant"].replace("valgrind", "plain")]
-        base = os.path.join(OUT, "replays", "%s-%s" % (prop, v["seed"]))
-        planf, minf = base + ".full.plan", base + ".plan"
-        if len(reported) >= MAXREP:  # many distinct classes: the first MAXREP are minimised and reported, the rest are counted
-            unreported.append((oracle, sig, len(vs)))
-            continue
-        same_variant = [x for x in vs if x["variant"] == v["variant"]]
-        v2, r = minimise_with_fallback(exe, same_variant, planf, minf, ["--prop", prop, "--oracle", oracle, "--sig", urllib.parse.quote(sig, safe="")])
-        if v2 is None:
-            log("run_check: HARNESS FAULT: violation %s %s (seed %s, %s) did not reproduce in a fresh process, alone or with its worker's history: %s" % (oracle, sig, v["seed"], v["variant"], (r.stdout.strip()[-300:] if r else "")))
-            harness_fault = True
-            continue
-        v = v2
-        hdr = dict(re.findall(r"^# (\w+)=(.*)$", open(minf).read(), re.M))
-        ok = True
-        for _ in range(2):  # replay gate: fresh process, twice, same violation and same event-log hash
-            run, viols, crash, rc, err = sim_replay(exe, minf)
-            hit = [x for x in viols if x["prop"] == prop and x["oracle"] == oracle and x["sig"] == sig]
-            if not hit or run is None or run.get("loghash") != hdr.get("loghash"):
-                ok = False
-        if not ok:
-            log("run_check: HARNESS FAULT: minimised replay %s does not reproduce identically" % minf)
-            harness_fault = True
-            continue
-        os.remove(planf)
-        reported.append({"oracle": oracle, "sig": sig, "replay": minf, "count": len(vs), "msg": v["msg"], "variant": v["variant"], "steps_after": hdr.get("steps_after")})
-    for (kind, owner, op), cs in crash_classes.items():
-        oracle = "crash." + kind
-        k = is_known(oracle, op)
-        if k:
-            known_hits.append((k, len(cs)))
-            continue
-        c = cs[0]
-        exe = exes[c["variant"].replace("valgrind", "plain")]
-        base = os.path.join(OUT, "replays", "%s-%s" % (prop, c["seed"]))
-        planf, minf = base + ".full.plan", base + ".plan"
-        if str(c.get("idx")) == "?":
-            harness_fault = True
-            continue
-        same_variant = [x for x in cs if x["variant"] == c["variant"] and str(x.get("idx")) != "?"]
-        c2, r = minimise_with_fallback(exe, same_variant, planf, minf, ["--crash"] + (["--prop", owner] if owner else []) + ["--oracle", kind])
-        if c2 is not None:
-            c = c2
-        if c2 is None:
-            log("run_check: HARNESS FAULT: crash (%s, op %s, seed %s, %s) did not reproduce in a fresh process" % (kind, op, c["seed"], c["variant"]))
-            harness_fault = True
-            continue
-        ok = True
-        for _ in range(2):
-            run, viols, crash, rc, err = sim_replay(exe, minf, c["variant"])
-            died = (crash is not None and crash.get("kind") == kind) or (crash is None and run is None and ((kind == "sanitizer" and rc == 77) or (kind == "signal" and rc < 0))) or (kind == "valgrind" and rc == 78)
-            if not died:
-                ok = False
-        if not ok:
-            log("run_check: HARNESS FAULT: minimised crash replay %s does not reproduce" % minf)
-            harness_fault = True
-            continue
-        os.remove(planf)
-        reported.append({"oracle": oracle, "sig": op, "replay": minf, "count": len(cs), "msg": "worker died: kind=%s signal/code=%s while executing %s; %s" % (kind, c.get("sig"), op, (c.get("stderr_tail") or "")[-400:].replace("\n", " | ")),
-                         "variant": c["variant"]})
 
+    def guarded(what, fn):
+        """A failure of the reporting machinery is a harness fault (exit 2 unless a violation was reported), never a verdict."""
+        nonlocal harness_fault
+        try:
+            fn()
+        except Exception as e:  # noqa: BLE001
+            import traceback
+            log("run_check: HARNESS FAULT while reporting %s: %r" % (what, e))
+            log("  " + traceback.format_exc().replace("\n", " | ")[-600:])
+            harness_fault = True
+
+    for (oracle, sig), vs in classes.items():
+        def _one_class(oracle=oracle, sig=sig, vs=vs):
+            nonlocal harness_fault
+            k = is_known(oracle, sig)
+            if k:
+                known_hits.append((k, len(vs)))
+                return
+            v = vs[0]
+            exe = exes[v["variant"].replace("valgrind", "plain")]
+            base = os.path.join(OUT, "replays", "%s-%s-%d" % (prop, v["seed"], len(reported) + 1))
+            planf, minf = base + ".full.plan", base + ".plan"
+            if len(reported) >= MAXREP:  # many distinct classes: the first MAXREP are minimised and reported, the rest are counted
+                unreported.append((oracle, sig, len(vs)))
+                return
+            same_variant = [x for x in vs if x["variant"] == v["variant"]]
+            v2, r = minimise_with_fallback(exe, same_variant, planf, minf, ["--prop", prop, "--oracle", oracle, "--sig", urllib.parse.quote(sig, safe="")])
+            if v2 is None:
+                log("run_check: HARNESS FAULT: violation %s %s (seed %s, %s) did not reproduce in a fresh process, alone or with its worker's history: %s" % (oracle, sig, v["seed"], v["variant"], (r.stdout.strip()[-300:] if r else "")))
+                harness_fault = True
+                return
+            v = v2
+            hdr = dict(re.findall(r"^# (\w+)=(.*)$", open(minf).read(), re.M))
+            ok = True
+            for _ in range(2):  # replay gate: fresh process, twice, same violation and same event-log hash
+                run, viols, crash, rc, err = sim_replay(exe, minf)
+                hit = [x for x in viols if x["prop"] == prop and x["oracle"] == oracle and x["sig"] == sig]
+                if not hit or run is None or run.get("loghash") != hdr.get("loghash"):
+                    ok = False
+            if not ok:
+                log("run_check: HARNESS FAULT: minimised replay %s does not reproduce identically" % minf)
+                harness_fault = True
+                return
+            if os.path.exists(planf):
+                os.remove(planf)
+            reported.append({"oracle": oracle, "sig": sig, "replay": minf, "count": len(vs), "msg": v["msg"], "variant": v["variant"], "steps_after": hdr.get("steps_after")})
+        guarded("%s %s" % (oracle, sig), lambda: _one_class(oracle=oracle, sig=sig, vs=vs))
+    for (kind, owner, op), cs in crash_classes.items():
+        def _one_crash(kind=kind, owner=owner, op=op, cs=cs):
+            nonlocal harness_fault
+            oracle = "crash." + kind
+            k = is_known(oracle, op)
+            if k:
+                known_hits.append((k, len(cs)))
+                return
+            c = cs[0]
+            exe = exes[c["variant"].replace("valgrind", "plain")]
+            base = os.path.join(OUT, "replays", "%s-%s-%d" % (prop, c["seed"], len(reported) + 1))
+            planf, minf = base + ".full.plan", base + ".plan"
+            if str(c.get("idx")) == "?":
+                harness_fault = True
+                return
+            same_variant = [x for x in cs if x["variant"] == c["variant"] and str(x.get("idx")) != "?"]
+            c2, r = minimise_with_fallback(exe, same_variant, planf, minf, ["--crash"] + (["--prop", owner] if owner else []) + ["--oracle", kind])
+            if c2 is not None:
+                c = c2
+            if c2 is None:
+                log("run_check: HARNESS FAULT: crash (%s, op %s, seed %s, %s) did not reproduce in a fresh process" % (kind, op, c["seed"], c["variant"]))
+                harness_fault = True
+                return
+            ok = True
+            for _ in range(2):
+                run, viols, crash, rc, err = sim_replay(exe, minf, c["variant"])
+                died = (crash is not None and crash.get("kind") == kind) or (crash is None and run is None and ((kind == "sanitizer" and rc == 77) or (kind == "signal" and rc < 0))) or (kind == "valgrind" and rc == 78)
+                if not died:
+                    ok = False
+            if not ok:
+                log("run_check: HARNESS FAULT: minimised crash replay %s does not reproduce" % minf)
+                harness_fault = True
+                return
+            if os.path.exists(planf):
+                os.remove(planf)
+            reported.append({"oracle": oracle, "sig": op, "replay": minf, "count": len(cs), "msg": "worker died: kind=%s signal/code=%s while executing %s; %s" % (kind, c.get("sig"), op, (c.get("stderr_tail") or "")[-400:].replace("\n", " | ")),
+                             "variant": c["variant"]})
+        guarded("crash %s %s" % (kind, op), lambda: _one_crash(kind=kind, owner=owner, op=op, cs=cs))
     # ---------------- evidence
     wall = time.time() - t0
     samples = []
     try:
         for si, (v, p, n) in enumerate(sched[:2]):
-            txt = subprocess.run([exes[v], "--data", DATA, "--emit-plan", "--seed", str(seed * 1000 + si), "--profile", p, "--index", "0"], stdout=subprocess.PIPE, text=True).stdout
+            txt = subprocess.run([exes[v], "--data", DATA, "--emit-plan", "--seed", str(seed * 1000 + si), "--profile", p, "--index", "0"], stdout=subprocess.PIPE, text=True, errors="replace").stdout
             lines = txt.strip().split("\n")
             samples.append({"variant": v, "profile": p, "index": 0, "plan": lines[:6] + [re.sub(r" (u|len|val|x|b|cb|k)=\S+", "", l) for l in lines[6:46]] + (["... (%d more lines)" % (len(lines) - 46)] if len(lines) > 46 else [])})
     except Exception as e:  # evidence must not decide the verdict
